@@ -905,7 +905,7 @@ pub fn evidence_texts(prop: &str) -> (String, serde_json::Value, Vec<String>) {
         ]
     });
     let rule = match prop {
-        "C07" => "Scenarios are generated from (VERIF_SEED, run index) by the swarm generator (alphabet, pattern family, builder options, API surface, stream with planted occurrences and near misses, roll-buffer spare capacity incl. the shipped capacity, explicit read-size schedule incl. aimed cuts inside planted matches, soft EOFs, scribbling). One evaluation = one execution of stream_find_iter against the simulated reader, judged online against find_iter of the same searcher on the bytes delivered. A case is non-trivial when the in-memory iterator reports at least one match AND the run exercised a buffer roll, a multi-read fill below the minimum, or a read boundary strictly inside a reported match. Distinct = distinct hash of (patterns, stream, capacity, read schedule, options, op).",
+        "C07" => "Scenarios are generated from (VERIF_SEED, run index) by the swarm generator (alphabet, pattern family, builder options, API surface, stream with planted occurrences and near misses, roll-buffer spare capacity incl. the shipped capacity, explicit read-size schedule incl. aimed cuts inside planted matches, soft EOFs, scribbling). One evaluation = one execution of stream_find_iter against the simulated reader, judged online against find_iter of the same searcher on the bytes delivered (one scenario in eight consumes the iterator through for_each by value, through nth(0), or additionally through count() and last() in further fault-free passes over the same scripted reads; one in thirty is valid UTF-8 text with patterns that split code points). A case is non-trivial when the in-memory iterator reports at least one match AND the run exercised a buffer roll, a multi-read fill below the minimum, or a read boundary strictly inside a reported match. Distinct = distinct hash of (patterns, stream, capacity, read schedule, options, op).",
         "C08" => "As C07, plus a write-acceptance schedule (all / 1 / 1..3 / half / mixed with Interrupted noise), a replacement table and a closure script. One evaluation = one execution of try_stream_replace_all or try_stream_replace_all_with, judged against try_replace_all_bytes (resp. the splice of find_iter with the script's outputs) of the same searcher on the bytes delivered; closure arguments are compared call by call. Non-trivial and distinct as in C07.",
         _ => "Scenarios are sampled by seed as in C07/C08 (streams up to 160 bytes so that every position can be enumerated, plus a few production-capacity scenarios). Within each scenario a fault-free calibration run records R read calls, W write calls, B output bytes and M closure calls; then one execution per read fault at every call k in [0,R) (the last replaces the EOF read; error kind cycled over 8 kinds; with and without scribbling), per write fault at every call, per Ok(0) at every call, per short-write-then-error after every accepted byte count, per closure failure before/after its write at every match, plus seeded multi-fault read sequences polled on after each error. One evaluation = one faulted execution judged against the calibration run (surfacing, kind, prefix consistency, continuation, EOF honesty, no panic, bounded completion). A case is non-trivial when the fault actually fired while the operation had in-flight state (not after the final EOF read of an empty stream). Distinct = distinct hash of (scenario signature, fault list).",
     };
